@@ -1304,7 +1304,11 @@ pub fn run_tcp_lines(args: &Args) -> Result<()> {
     let prog = prog_idle();
     let mut first_id = 0u64;
     let mut nh = 0u64;
-    for (k, (lines, cuts)) in cases.iter().enumerate() {
+    for (k, (lines0, cuts)) in cases.iter().enumerate() {
+        let sentinel: u8 = 0x80 | (k as u8 & 0x7f);
+        let mut lines_v = lines0.clone();
+        lines_v.push(format!("u8:ffcf7e:{:x}", sentinel));
+        let lines = &lines_v;
         let file = elf_of(&prog, &mut rng);
         std::fs::write(&elf_path, &file)?;
         let mut done = false;
@@ -1372,7 +1376,19 @@ pub fn run_tcp_lines(args: &Args) -> Result<()> {
             let since: Rc<RefCell<Option<std::time::Instant>>> = Rc::new(RefCell::new(None));
             let exit_addr = cpu.exit_addr;
             let (w1, sh1, id1) = (w.clone(), shadow.clone(), idc.clone());
+            let fin_poll = finish.clone();
+            let fin_since: Rc<RefCell<Option<std::time::Instant>>> = Rc::new(RefCell::new(None));
             verif_hooks::set_on_poll(Some(Box::new(move |c: &mut Cpu| {
+                // watchdog: cmd:stop has been written to the connection; a run loop that never acts on it (lines lost
+                // in the receive path) is ended here and recorded as such instead of hanging the driver
+                if fin_poll.load(Ordering::SeqCst) {
+                    let mut fs = fin_since.borrow_mut();
+                    if fs.is_none() {
+                        *fs = Some(std::time::Instant::now());
+                    } else if fs.map(|t| t.elapsed().as_secs() >= 25).unwrap_or(false) {
+                        panic!("cmd:stop sent over TCP was not acted on within 25 s");
+                    }
+                }
                 if sh1.borrow().is_none() {
                     let sh = Shadow::of(c);
                     let pokes = sh.nonzero_pokes();
@@ -1394,8 +1410,12 @@ pub fn run_tcp_lines(args: &Args) -> Result<()> {
                 if since2.borrow().is_none() {
                     *since2.borrow_mut() = Some(std::time::Instant::now());
                 }
-                let n = pa2.fetch_add(1, Ordering::SeqCst);
-                if n < 200 || since2.borrow().map(|t| t.elapsed().as_millis() < 60).unwrap_or(true) {
+                // the last line of every sequence is a sentinel store: lines travel through ONE ordered channel, so when
+                // its effect is there every earlier line has been processed (no timing assumption); a receive path that
+                // loses lines never shows the sentinel - the sequence is then recorded as it stands after 25 s
+                let _ = pa2.fetch_add(1, Ordering::SeqCst);
+                let seen = c.bus.read(0xffcf7e).map(|b| b == sentinel).unwrap_or(false);
+                if !seen && since2.borrow().map(|t| t.elapsed().as_secs() < 25).unwrap_or(true) {
                     return;
                 }
                 // everything sent has been received and processed by now: one poll event for the whole sequence
